@@ -9,10 +9,11 @@ from vlib import Infra
 MAXMSG = 1048576 + 24
 
 
-def cfg_mc(kinds, heights, limits, maxrecs, maxdamage, maxpost, unsynced, dp=False, dump=True, tlimits="{0}"):
-    s = ("SPECIFICATION Spec\nCONSTANTS\n  MaxMsg = 1\n  HdrSz = 0\n  Kinds = %s\n  Heights = %s\n  Limits = %s\n  TLimits = %s\n"
-         "  MaxRecs = %d\n  MaxDamage = %d\n  MaxPost = %d\n  Unsynced = %s\nVIEW View\nINVARIANT Inv\n"
-         "PROPERTY SyncIsDurable\n") % (kinds, heights, limits, tlimits, maxrecs, maxdamage, maxpost, "TRUE" if unsynced else "FALSE")
+def cfg_mc(kinds, heights, limits, maxrecs, maxdamage, maxpost, unsynced, dp=False, dump=True, tlimits="{0}", wpr=1, invs=("Inv",)):
+    s = ("SPECIFICATION Spec\nCONSTANTS\n  MaxMsg = 1\n  HdrSz = 0\n  WritesPerRecord = %d\n  Kinds = %s\n  Heights = %s\n  Limits = %s\n  TLimits = %s\n"
+         "  MaxRecs = %d\n  MaxDamage = %d\n  MaxPost = %d\n  Unsynced = %s\nVIEW View\n%s"
+         "PROPERTY SyncIsDurable\n") % (wpr, kinds, heights, limits, tlimits, maxrecs, maxdamage, maxpost, "TRUE" if unsynced else "FALSE",
+                                        "".join("INVARIANT %s\n" % i for i in invs))
     if dp:
         s += "INVARIANT DPAgrees\n"
     if dump:
@@ -40,7 +41,9 @@ def run(c):
               "checks on both sides of the limit, total-size checks that remove the oldest files, restarts, crashes; then one damage of every class -- checksum / payload / "
               "length smaller, larger, above the limit / file cut at each region of a record / garbage of three size classes -- "
               "at every record of every file, then writes, restart or repair behind it) is replayed on a real consensus.BaseWAL "
-              "with real messages of all 12 kinds (seeded field values); the damage is realised for EVERY byte offset and bit "
+              "with real messages of all 12 kinds (seeded field values; size classes small / 1.5 KB / 5 KB / 40 KB chosen by TLC, so that "
+              "files cross 4096, 8192 and 65536 bytes); the ticker's head-size check is also run INSIDE Write/WriteSync, behind "
+              "every group write of the message; the damage is realised for EVERY byte offset and bit "
               "of its class on a seeded share of the logs (WAL_EXH) and by a seeded selection elsewhere; compared after every "
               "step: result class, bytes on disk per file vs written messages (codec-independent field rendering), and in the "
               "last state: group read, per-file read, SearchForEndHeight for every height and both options (reader position "
@@ -53,9 +56,12 @@ def run(c):
         "patterns the classes do not name)",
         "a process crash is modelled (bufio buffer lost, written bytes kept), not a power failure; the 40 KiB bufio buffer never spills in the drivers",
         "EndHeight heights are >= 0; SearchForEndHeight is called with non-nil options",
+        "WALEncoder.Encode hands a record to the autofile group in ONE Group.Write (WritesPerRecord = 1): stated in WAL.tla, "
+        "refuted for 2 by the companion TLC run, and bound by running the ticker's checkHeadSizeLimit from a hook at the end of "
+        "Group.Write behind every group write the real encoder makes for a message; the ticker goroutine itself is not run",
         "the driver's own byte arithmetic (record boundaries, CRC-32C, class of a byte offset) and its field-by-field rendering of messages are trusted",
     ]
-    M, MH = '{"m"}', '{"m", "huge"}'
+    M, MH, BIG = '{"m"}', '{"m", "huge"}', '{"m", "m1k", "m5k", "m40k"}'
     # tag, cfg, replay env, alloc?
     runs = [
         ("dmg4", cfg_mc(M, "{0, 1, 2}", "{1, 2}", 4, 1, 0, True),
@@ -65,6 +71,9 @@ def run(c):
         ("huge", cfg_mc(MH, "{0, 1}", "{0, 1}", 3, 0, 0, True), dict(WAL_STRIDE=1), False),
         # total size limit: oldest files removed (sizes 2 and 3 records), then reads / searches / restart
         ("prune", cfg_mc(M, "{0, 1}", "{1}", 5, 0, 0, False, tlimits="{2, 3}"), dict(WAL_STRIDE=1 if th else 6), False),
+        # padded records (size classes 1.5 KB / 5 KB / 40 KB among small ones): files cross 4096, 8192 and 65536 bytes,
+        # frames straddle the refill boundaries of buffered readers; one damage before / inside / behind them
+        ("big4", cfg_mc(BIG, "{1}", "{3}", 4, 1, 0, False), dict(WAL_STRIDE=1 if th else 3, WAL_EXH=10), False),
         # seven one-record files: the four-files-per-check bound of checkTotalSizeLimit
         ("prune7", cfg_mc("{}", "{0}", "{1}", 7, 0, 0, False, tlimits="{1, 2}"), dict(WAL_STRIDE=1), False),
     ]
@@ -73,6 +82,7 @@ def run(c):
             ("rec5", cfg_mc(M, "{0, 1, 2}", "{1, 2}", 5, 1, 0, False), dict(WAL_STRIDE=7, WAL_EXH=5), False),
             ("rec6", cfg_mc(M, "{0, 1}", "{2}", 6, 1, 0, False), dict(WAL_STRIDE=5, WAL_EXH=5), False),
             ("dmg2", cfg_mc(M, "{0, 1}", "{1}", 3, 2, 0, False, dp=True), dict(WAL_STRIDE=3, WAL_EXH=5), False),
+            ("big5", cfg_mc(BIG, "{1}", "{3}", 5, 1, 0, False), dict(WAL_STRIDE=5, WAL_EXH=5), False),
             ("kinds", cfg_mc('{"rs", "to", "prop", "part", "vote"}', "{1}", "{1}", 3, 0, 0, False), dict(WAL_STRIDE=1), False),
         ]
     for tag, cfg, env, alloc in runs:
@@ -90,12 +100,28 @@ def run(c):
             g = c.gotest("wal", "TestAlloc", env=dict(WAL_DUMP=dump, WAL_LIMIT=300 if th else 60), timeout=900, tag="alloc " + tag)
             fold(c, g, tot)
         os.remove(dump)
+    companion(c)
     c.exhaustive = True
     if th:
         tv(c, tot)
 
 
-LOCKSTEP = {"new", "fl", "tick", "restart", "crash", "flip", "cut", "junk", "reset"}
+def companion(c):
+    """The assumption behind FilesStartAtFrame: WALEncoder.Encode hands a record to the group in ONE Write.  The same
+    model with WritesPerRecord = 2 (header, then payload; the ticker's head-size check may come between any two group
+    writes): TLC must reach states in which a file starts in the middle of a frame (SplitWitness prints them; the search
+    is complete).  The binding of the assumption is in TestReplay: in-write ticks at every real group-write position."""
+    cfg = cfg_mc('{"m"}', "{0, 1}", "{1, 2}", 4, 0, 0, True, dump=False, wpr=2, invs=("SplitWitness",))
+    r = c.tlc("wal", "MCgen.cfg", module="MC_WAL", files={"MCgen.cfg": cfg}, timeout=900, tag="companion WritesPerRecord=2")
+    if not r.ok:
+        raise Infra("TLC failed on the companion model: %s %s\n%s" % (r.violated, r.error, c.tlc_tail(r)))
+    n = open(r.out, errors="replace").read().count('"SPLIT"')
+    if n == 0:
+        raise Infra("companion model (WritesPerRecord = 2) does not refute FilesStartAtFrame: the in-write tick is not modelled")
+    c.extra["companion_states_refuting_FilesStartAtFrame"] = n
+
+
+LOCKSTEP = {"new", "fl", "tick", "wt", "wst", "restart", "crash", "flip", "cut", "junk", "reset"}
 
 
 def tv(c, tot):
@@ -109,7 +135,7 @@ def tv(c, tot):
     hs = sorted({0, 1, 2, maxh // 2, maxh})
     files = {"trace.ndjson": trace,
              "TV.tla": "---- MODULE TV ----\nEXTENDS WALTrace\nHs == {%s}\n====\n" % ", ".join(map(str, hs)),
-             "TV.cfg": ("SPECIFICATION Spec\nCONSTANTS\n  MaxMsg = %d\n  HdrSz = 8\n  TraceFile = \"trace.ndjson\"\n"
+             "TV.cfg": ("SPECIFICATION Spec\nCONSTANTS\n  MaxMsg = %d\n  HdrSz = 8\n  WritesPerRecord = 1\n  TraceFile = \"trace.ndjson\"\n"
                         "  SearchHs <- Hs\nINVARIANT Inv\nPOSTCONDITION Accepted\nCHECK_DEADLOCK FALSE\n") % MAXMSG}
     r = c.tlc("wal", "TV.cfg", module="TV", files=files, workers=1, timeout=1500, tag="WALTrace %d logs" % nlogs)
     events = [json.loads(l) for l in open(trace)]
